@@ -1011,6 +1011,12 @@ class Evaluator:
                 return True
             elif isinstance(s, (ast.Raise, ast.Continue, ast.Break)):
                 return True
+            elif isinstance(s, ast.FunctionDef):
+                # a local helper defined here (possibly one of several definitions under a test): the name
+                # now stands for this definition
+                for h in getattr(self.f, "nested_all", {}).get(s.name, []):
+                    if h.node is s:
+                        env[s.name] = ("func", h)
             elif isinstance(s, ast.If):
                 d = self.decide(s.test, env)
                 saved = self.n_override
